@@ -348,6 +348,24 @@ def run(ctx: Ctx) -> None:
 
 def replay(data: dict[str, Any]) -> int:
     inp = data["input"]
+    if "universe" in inp:      # the cover step alone
+        got = pvlib.run_requests([{"op": "cover", "inputs": [(inp["sets"], inp["universe"])],
+                                   "hash_seed": inp.get("hash_seed", 0)}])[0]
+        lr = pvlib.lean([{"op": "gate.cover", "sets": inp["sets"], "universe": inp["universe"]}])[0]
+        print("get_weighted_cover:", got.get("results"), "\nprocess_missing_and_gates:", got.get("trees"),
+              "\nmodel outcomes:", lr.get("outcomes"))
+        res = (got.get("results") or [None])[0]
+        outs = [None if o is None else sorted(sorted(x) for x in o) for o in lr.get("outcomes", [])]
+        return 0 if (not isinstance(res, dict) and res in outs) else 1
+    if "sets" in inp and "tree" in inp:      # the OR inference alone
+        got = pvlib.run_requests([{"op": "infer_or", "inputs": [(inp["sets"], inp["tree"])], "hash_seed": 0}])[0]
+        lr = pvlib.lean([{"op": "gate.inferor", "sets": inp["sets"], "tree": inp["tree"]}])[0]
+        print("real:", got.get("results"), "\nmodel:", lr)
+        res = (got.get("results") or [{}])[0]
+        return 0 if res.get("node") == lr.get("node") and res.get("all") == lr.get("all") else 1
+    if "unreproduced" in inp:
+        print(json.dumps(inp)[:2000])
+        return 1
     rp = pvlib.run_requests([{"op": "gates", "families": [inp["family"]], "hash_seed": inp.get("hash_seed", 0)}])[0]
     res = rp["results"][0]
     print("inferred:", res)
